@@ -416,6 +416,42 @@ func c09Check(ctx *vfCtx, c c09Case) {
 		if ok1 && ok2 && vFull != vSel {
 			ctx.Fail("C09/add-auth-events-insufficient", "event built with AddAuthEvents is %s against the full state but %s against exactly its auth_events %v; event=%s", vFull, vSel, built.AuthEventIDs(), built.JSON())
 		}
+		// the same event prepared in a room that has nothing but its create event yet: what is built has
+		// the version's event format - auth_events and prev_events are lists, however few they name
+		{
+			var onlyCreate []PDU
+			for _, e := range full {
+				if e.Type() == spec.MRoomCreate && e.StateKeyEquals("") {
+					onlyCreate = append(onlyCreate, e)
+				}
+			}
+			if len(onlyCreate) == 1 {
+				eb5 := impl.NewEventBuilderFromProtoEvent(pe)
+				var built5 PDU
+				var err5 error
+				if vfCatch(ctx, "C09/build-in-new-room", func() {
+					p5, _ := NewAuthEvents(onlyCreate)
+					if err5 = eb5.AddAuthEvents(p5); err5 != nil {
+						return
+					}
+					_, priv := vfKeyFor("origin:x")
+					built5, err5 = eb5.Build(time.UnixMilli(5000), "a.example", "ed25519:1", priv)
+				}) {
+					return
+				}
+				if err5 == nil && built5 != nil {
+					ctx.Class("built-with-AddAuthEvents/room-with-create-event-only")
+					if bt, terr := evTree(built5.JSON()); terr == nil {
+						for _, k := range []string{"auth_events", "prev_events"} {
+							if v, ok := bt.get(k); !ok || v.K != 'a' {
+								ctx.Fail("C09/built-event-format/"+k, "an event built through AddAuthEvents in a room that has only its create event has %s = %s (a list is the format of every room version); JSON=%s", k, jplain(v), built5.JSON())
+								return
+							}
+						}
+					}
+				}
+			}
+		}
 		// a builder that has been through AddAuthEvents before (the event was prepared against an earlier
 		// state, then prepared again): the selection is made from the provider given NOW
 		{
